@@ -720,6 +720,17 @@ func validateEphemeralSiafundElement(ms *MidState, sfi types.V2SiafundInput) err
 	} else if ms.base.childHeight() >= ms.base.Network.HardforkV2.EphemeralOutputHeight {
 		return fmt.Errorf("spends ephemeral output %v", sfi.Parent.ID)
 	}
+	// NOTE: below EphemeralOutputHeight the claimed contents of an ephemeral
+	// parent are not compared with the output that was actually created.
+	// They are still used to compute the siafund claim when the transaction
+	// is applied, so values for which that computation is undefined (a claim
+	// start beyond the current pool, more siafunds than exist) must be
+	// rejected here rather than panic later.
+	if sfi.Parent.ClaimStart.Cmp(ms.siafundTaxRevenue) > 0 {
+		return fmt.Errorf("claims invalid claim start for ephemeral output %v", sfi.Parent.ID)
+	} else if sfi.Parent.SiafundOutput.Value > ms.base.SiafundCount() {
+		return fmt.Errorf("claims invalid value for ephemeral output %v", sfi.Parent.ID)
+	}
 	return nil
 }
 
